@@ -66,4 +66,30 @@ CHECKS["C05"] = dict(
              "alphabets are boundary-value sets, complete only for the small scopes stated in the evidence.",
 )
 
+CHECKS["C09"] = dict(
+        src="checks/c09.cpp", cfg="rel", link="static", engine="A-case-explorer",
+        category="exploration", design_ref="DESIGN.md section 4, C09",
+        technique="exhaustive enumeration of every residue p mod 2N for every N up to the bound, on the real kernels, against the ring map computed from its definition",
+        text="For every N = 2^0..2^12 (quick) / 2^16 (thorough) and every residue p mod 2N (every odd residue for automorphisms) each of the "
+             "11 rotation / automorphism / (X^p-1) kernels (int64 and double, in place and out of place) is run on an injective probe and "
+             "compared coefficient by coefficient with the ring map; far representatives (p +- 2N, +- 2N 2^40, nearest +-(2^63-1)) are run "
+             "for residue classes; data independence is checked by the complete scope N <= 8, all p, all vectors over {-1,0,1,2}; the vector "
+             "and big wrappers are run for all p on a shape box against the byte-exact model.",
+        note="The kernels are data-independent signed permutations, so one injective probe per (N,p) fixes the behaviour on all inputs "
+             "(argument checked, not assumed, on the complete small scope). N bounded by the tier.",
+)
+
+CHECKS["C02"] = dict(
+        src="checks/c02.cpp", cfg="rel", link="static", engine="A-case-explorer",
+        category="exploration", design_ref="DESIGN.md section 4, C02",
+        technique="bounded-exhaustive enumeration of VMP shapes x both entry points x cfg on the real code against the exact __int128 polynomial product, plus a complete bilinear basis sweep",
+        text="Every (N in both prepared layouts, nrows, ncols, a_size, res_size incl. 0, stride, dispatch configuration) of the box is run "
+             "through vmp_prepare_contiguous + vmp_apply_dft and through vec_znx_dft + vmp_apply_dft_to_dft with dense injective operands "
+             "in the exactness regime; after vec_znx_idft_tmp_a every column must equal the exact sum of negacyclic products, columns "
+             ">= ncols must be exactly zero, both entry points must agree; for small N the map is additionally run on the complete basis "
+             "(X^u e_i, X^v E_ij), which determines a bilinear map.",
+        note="Bounded shape box (larger N only on a fixed shape list in the thorough tier); exact equality is demanded because the "
+             "operands keep the summed C01 error budget below 1/2.",
+)
+
 NOT_YET = {}
